@@ -6,6 +6,8 @@ import BV.Drive.Util
       the book-keeping of the encoder right after `set_custom_dictionary(size, gen_dict(seed, size))` on a fresh
       state with default parameters except lgwin/quality (both may be out of range: they are sanitised):
       `ok ip= lf= lp= pb= pb2= cat= app= ud= lgwin= lgblock= q= pos= mask= cur= dlen= tail= rfnv= dfnv= rec=` | `panic`
+    dict ringw <lgwin> <quality> <size> <seed> <n1,n2,…>
+      book line after `set_custom_dictionary` + `copy_input_to_ring_buffer(n_k, gen_in(seed, ·))` calls (writes across the ring end)
     dict decrun <wbits> <d> <seed> <mlen> <B<hex>|C<dist>,<len> …>
       decoder copy path on a single last meta-block: `ok <output hex>` | `panic`
     dict dec <wbits> <d> <seed> <rbits> <P1,P2,…>
@@ -47,6 +49,23 @@ def handle (args : List String) : String :=
     let D : Dec := ⟨natArg wbits, natArg d, dictGen (natArg seed)⟩
     let ps := if ps = "-" then [] else (ps.splitOn ",").map natArg
     s!"deff={D.dEff} mbd={D.mbd} ctx1={D.ctx1 (natArg rbits)} ctx2={D.ctx2 (natArg rbits)} max={D.runMax 0 ps}"
+  | ["ringw", lgwin, q, size, seed, writes] =>
+    let size := natArg size
+    let seed := natArg seed
+    match setCustomDictionary (defaultParams (intArg q) (intArg lgwin)) size (dictGen seed) size with
+    | none => "panic"
+    | some s0 =>
+      let ws := if writes = "-" then [] else (writes.splitOn ",").map natArg
+      let r := ws.foldl (fun (acc : Option (Enc × Nat)) n =>
+        match acc with
+        | none => none
+        | some (s, off) =>
+          match copyInputToRingBuffer (fun i => inGen seed (off + i)) n n s with
+          | none => none
+          | some s' => some (s', off + n)) (some (s0, 0))
+      match r with
+      | none => "panic"
+      | some (s, _) => bookLine s
   | "decrun" :: wbits :: d :: seed :: mlen :: toks =>
     let D : Dec := ⟨natArg wbits, natArg d, dictGen (natArg seed)⟩
     let cmds : List DecCmd := toks.filterMap fun t =>
